@@ -187,3 +187,8 @@ _add('C12', 'decides', 'Top of the pipeline: lint = pre_lint -> convert -> post_
 _add('C07', 'decides', 'Totality (no panic site, termination) also of the units added in session 3 that list C07: name_rules, stmt_dispatch, print_linter, dots_linter, pre_linter, arg_validation, builtin_arg_rules, lint_pipeline.')
 _add('C11', 'decides', 'stmt_dispatch: a converted statement keeps the position of the statement it was made from.')
 _add('C01', 'decides', 'lint_pipeline / stmt_dispatch: the checker stage a program passes through before it runs is the composition of its three stages, each statement handled by the rule of its own kind.')
+
+_add('C01', 'decides', 'wrappers_read_data (Verus): DATA appends its values in order; READ gives variable #j the value at cursor+j converted to its type, Out of DATA exactly when the segment is exhausted, earlier variables stay assigned, nothing else changes.')
+_add('C05', 'decides', 'wrappers_err: ERR is the code of the most recent trapped error or 0; reading it does not clear it.')
+_add('C08', 'decides', 'builtin_dispatch: every built-in goes to exactly its own wrapper; wrappers_misc / wrappers_read_data / wrappers_err / file_wrappers_*: every unwrap/expect/panic of the built-in wrappers under contract is unreachable under the argument shape the checker rule of that built-in (builtin_arg_rules) and the parser encoding (opt_args_flags) establish; peek_seg0 / poke_seg0 total; PANIC_SITES.md accounts for every panic site of the repository.')
+_add('C17', 'decides', 'wrappers_misc: LEN of a string is its number of characters (LEN(a+b) = LEN(a)+LEN(b)), of a numeric variable its size in bytes.')
